@@ -44,6 +44,8 @@ VARS = {
     'dtbetax': ('ADMBASE', 'admbase-dtshift', 'dtbetax'),
     'dtbetay': ('ADMBASE', 'admbase-dtshift', 'dtbetay'),
     'dtbetaz': ('ADMBASE', 'admbase-dtshift', 'dtbetaz'),
+    'Psi4r': ('WEYLSCAL4', 'weylscal4-psi4r_group', 'Weyl_Psi4r'),
+    'Psi4i': ('WEYLSCAL4', 'weylscal4-psi4i_group', 'Weyl_Psi4i'),
 }
 CODE = {v: i + 1 for i, v in enumerate(VARS)}
 GROUP_MEMBERS = {}
